@@ -292,6 +292,7 @@ def flat_statements():
         {"s": "seterr", "kw": {"obsdup": "bogus"}},
         {"s": "seterr", "kw": {"empty": "warn", "bogus": "ignore"}},
         {"s": "seterr", "kw": {"all": "bogus"}},
+        {"s": "seterr", "kw": {"empty": "<callable>", "obssize": "bogus"}},
         {"s": "seterrcall", "kind": "obsdup", "cb": "cb1"},
         {"s": "seterrcall", "kind": "bogus", "cb": "cb2"},
         {"s": "probe", "kind": "obsdup", "site": "ctor"},
@@ -319,7 +320,8 @@ KW = st.one_of(
                     max_size=3),
     st.builds(lambda r: {"all": r}, st.sampled_from(REACTIONS)),
     st.dictionaries(st.sampled_from(KINDS + ["bogus", "obs_dup"]),
-                    st.sampled_from(REACTIONS + ["bogus", "Raise"]),
+                    st.sampled_from(REACTIONS + ["bogus", "Raise",
+                                                 "<callable>"]),
                     min_size=1, max_size=3),
 )
 
@@ -389,6 +391,13 @@ class Model:
         return new
 
 
+def _real_kw(kw):
+    """A reaction written "<callable>" in a case stands for a function
+    object (a callable is not a reaction: such a call is refused)."""
+    return {k: (CBS["cb2"] if v == "<callable>" else v)
+            for k, v in kw.items()}
+
+
 def check_profile(model, where):
     from biom.err import geterr, geterrcall
     got = geterr()
@@ -425,7 +434,7 @@ def run(program, model, rec, path, stats):
             new = model.apply_kw(stmt["kw"])
             old_model = dict(model.state)
             try:
-                ret = seterr(**stmt["kw"])
+                ret = seterr(**_real_kw(stmt["kw"]))
                 refused = False
             except Exception:
                 refused = True
@@ -516,7 +525,7 @@ def run(program, model, rec, path, stats):
             entered = False
             left_by_boom = False
             try:
-                with errstate(**stmt["kw"]):
+                with errstate(**_real_kw(stmt["kw"])):
                     entered = True
                     if new is None:
                         raise Violation("invalid-errstate-accepted", "%s "
